@@ -340,6 +340,7 @@ type c06QuicPlan struct {
 	Overlap, Padded, Ping bool
 	Coalesced, TailJunk   bool
 	Token                 bool
+	ReusedDCID            bool
 	FirstHasOffset0       bool
 	// CompleteAt[i] is true if after datagram i the CRYPTO stream prefix
 	// [0, need) is fully available.
@@ -368,12 +369,31 @@ func (p *c06QuicPlan) Class() string {
 // c06ScatterHello spreads the handshake message `hello` over 1..4 datagrams of
 // client Initial packets. need = number of leading stream bytes that have to
 // be present for the whole hello (len(hello)).
+// the DCID and version of the flow generated last (generation and sniffing alternate case by case)
+var (
+	c06PrevDCID              []byte
+	c06PrevVersion           uint32
+	c06DCIDReuseOtherVersion int
+)
+
 func c06ScatterHello(r *rand.Rand, version uint32, hello []byte, simple bool) *c06QuicPlan {
 	pl := &c06QuicPlan{Version: version}
 	dcid := make([]byte, 8+r.IntN(13))
 	for i := range dcid {
 		dcid[i] = byte(r.UintN(256))
 	}
+	// One flow in four opens with the Destination Connection ID of the flow
+	// generated before it (a client that starts over in the other version keeps
+	// its DCID, RFC 9368; two clients may pick the same one): whatever the sniffer
+	// derived for the earlier flow must not be applied to this one.
+	if c06PrevDCID != nil && r.IntN(4) == 0 {
+		dcid = append([]byte(nil), c06PrevDCID...)
+		pl.ReusedDCID = true
+		if c06PrevVersion != version {
+			c06DCIDReuseOtherVersion++
+		}
+	}
+	c06PrevDCID, c06PrevVersion = append([]byte(nil), dcid...), version
 	scid := make([]byte, []int{0, 0, 4, 8, 16, 20}[r.IntN(6)])
 	for i := range scid {
 		scid[i] = byte(r.UintN(256))
